@@ -7,6 +7,9 @@ import (
 	"fmt"
 
 	"git.sr.ht/~rockorager/vaxis"
+	"git.sr.ht/~rockorager/vaxis/widgets/pager"
+	"git.sr.ht/~rockorager/vaxis/widgets/textinput"
+	"github.com/rivo/uniseg"
 
 	"verif/harness/drivers/c01"
 	"verif/harness/responder"
@@ -27,6 +30,66 @@ type Scn struct {
 	// A program started after other output on the line (printf x; app) finds it anywhere, and an xterm-like
 	// terminal keeps it across the switch to the alternate screen.
 	Cur [2]int `json:",omitempty"`
+	// AppID: the application id the terminal reports in its reply to the OSC 176 query ("" = the responder's
+	// default); any string the terminal was started with.
+	AppID string `json:",omitempty"`
+}
+
+// Widget frames: besides the c01 cell operations a C07 frame may hold
+//
+//	{K: "pager", R: row, Text: t, Style: s}      the library's pager widget drawn into the one-row window at row R
+//	                                             (fill and text in style s), holding the one-line text t
+//	{K: "input", R: row, Text: t, Cell: {G: p}, Shape: 0|1}
+//	                                             the library's text input drawn there with prompt p and content t;
+//	                                             Shape 1 = with its cursor (a steady block behind the content)
+//
+// Here the LIBRARY lays the text out, so the library measures the clusters. The application's record of such a
+// row is the text itself (the clusters in order, logged with the number of cells this terminal gives each); where
+// each cluster has to be displayed is worked out by the oracle (Caps_Trace!TextRows).
+func widgetOp(k string) bool { return k == "pager" || k == "input" }
+
+func hasWidgets(sc *Scn) bool {
+	for _, f := range sc.Frames {
+		for _, op := range f.Ops {
+			if widgetOp(op.K) {
+				return true
+			}
+		}
+	}
+	return false
+}
+
+type part struct {
+	text string
+	st   c01.StyleD
+}
+
+// textRow is the application's record of one widget row.
+type textRow struct {
+	r     int
+	fill  c01.StyleD
+	parts []part
+	cur   int // DECSCUSR shape of the cursor requested behind the text; 0 = none
+}
+
+func clusters(s string) (l []string) {
+	gr := uniseg.NewGraphemes(s)
+	for gr.Next() {
+		l = append(l, gr.Str())
+	}
+	return l
+}
+
+// ev renders the record as {r, c, cells, fill, cur}: cells = the clusters in order as the tuples RefTerm!Intended
+// expects (width 0 = left to the library; tw = the logged width on this terminal), fill = a blank in the fill style.
+func (t *textRow) ev(cv *termcmd.Conv, l *trace.Interner) trace.Ev {
+	cells := [][]int{}
+	for _, p := range t.parts {
+		for _, g := range clusters(p.text) {
+			cells = append(cells, appCell(cv, l, c01.CellD{G: g, W: 0, S: p.st}))
+		}
+	}
+	return trace.Ev{"r": t.r + 1, "c": 1, "cells": cells, "fill": appCell(cv, l, c01.CellD{G: " ", W: 1, S: t.fill}), "cur": t.cur}
 }
 
 // CursorSession: Session on a terminal whose cursor is not at home when the application starts.
@@ -56,11 +119,14 @@ func HexSession(mask int, alt bool, variant, hexcase int) *Scn {
 // Run executes a session. Sessions without the C07 extras go through the c01 executor unchanged; the others
 // through the same steps with the extra option / reply form (cells, cursor, render/refresh frames, Close).
 func Run(ctx *c01.Ctx, sc *Scn) (evs []trace.Ev, note string) {
-	if sc.Queue == 0 && sc.Hex == 0 && sc.Cur == [2]int{} {
+	if sc.Queue == 0 && sc.Hex == 0 && sc.Cur == [2]int{} && sc.AppID == "" && !hasWidgets(sc) {
 		return c01.Run(ctx, &sc.Scn)
 	}
 	caps := responder.FromMask(sc.Mask, sc.Alt)
 	caps.XTVersion, caps.DA1Class, caps.HexCase = sc.TermID, sc.DA1Class, sc.Hex
+	if sc.AppID != "" {
+		caps.AppID = sc.AppID
+	}
 	s, err := sess.Start(sess.Config{Caps: caps, Cols: sc.Cols, Rows: sc.Rows, CurRow: sc.Cur[0], CurCol: sc.Cur[1],
 		Opts: vaxis.Options{EventQueueSize: sc.Queue}})
 	if err != nil {
@@ -88,19 +154,42 @@ func Run(ctx *c01.Ctx, sc *Scn) (evs []trace.Ev, note string) {
 		"appid": vx.CanSetAppID(), "unicodeCore": vx.CanUnicodeCore(), "explicitWidth": vx.CanExplicitWidth()}})
 	want := c01.NewRec(sc.Cols, sc.Rows, cv)
 	cur := []int{0, 0, 0, 0}
+	texts := map[int]*textRow{} // widget rows, by row
 	for _, f := range sc.Frames {
 		win := vx.Window()
 		for _, op := range f.Ops {
 			switch op.K {
+			case "pager":
+				p := &pager.Model{Segments: []vaxis.Segment{{Text: op.Text, Style: op.Style.V()}}, Fill: vaxis.Cell{Style: op.Style.V()}}
+				p.Draw(win.New(0, op.R, -1, 1))
+				texts[op.R] = &textRow{r: op.R, fill: *op.Style, parts: []part{{op.Text, *op.Style}}}
+			case "input":
+				ti := textinput.New().SetPrompt(op.Cell.G).SetContent(op.Text)
+				ti.HideCursor = op.Shape == 0
+				ti.Draw(win.New(0, op.R, -1, 1))
+				t := &textRow{r: op.R, parts: []part{{op.Cell.G, c01.StyleD{}}, {op.Text, c01.StyleD{}}}}
+				if op.Shape != 0 {
+					for _, o := range texts {
+						o.cur = 0
+					}
+					t.cur = int(vaxis.CursorBlock)
+				}
+				texts[op.R] = t
 			case "set":
 				win.SetCell(op.C, op.R, op.Cell.V())
 				want.Apply(op)
 			case "show":
 				vx.ShowCursor(op.C, op.R, vaxis.CursorStyle(op.Shape))
 				cur = []int{1, op.R + 1, op.C + 1, op.Shape}
+				for _, t := range texts {
+					t.cur = 0
+				}
 			case "hide":
 				vx.HideCursor()
 				cur = []int{0, 0, 0, 0}
+				for _, t := range texts {
+					t.cur = 0
+				}
 			default:
 				return nil, "c07 executor: unsupported op " + op.K
 			}
@@ -114,7 +203,17 @@ func Run(ctx *c01.Ctx, sc *Scn) (evs []trace.Ev, note string) {
 		evs = append(evs, cv.Feed(s.Con.Take())...)
 		app := want.App(cv, ctx.L)
 		// rgb / su: which fallbacks the terminal's advertisement calls for (what it said, not what Vaxis made of it)
-		evs = append(evs, trace.Ev{"ev": "frame", "app": app, "cur": cur, "rgb": caps.RGB, "su": caps.Smulx || caps.VTE})
+		fe := trace.Ev{"ev": "frame", "app": app, "cur": cur, "rgb": caps.RGB, "su": caps.Smulx || caps.VTE}
+		if len(texts) > 0 {
+			tl := []trace.Ev{}
+			for r := 0; r < sc.Rows; r++ {
+				if t := texts[r]; t != nil {
+					tl = append(tl, t.ev(cv, ctx.L))
+				}
+			}
+			fe["texts"] = tl
+		}
+		evs = append(evs, fe)
 	}
 	vx.Close()
 	evs = append(evs, cv.Feed(s.Con.Take())...)
@@ -158,6 +257,45 @@ func Session(mask int, alt bool, variant int) *c01.Scn {
 	}}
 	f3 := c01.Frame{End: "refresh"}
 	return &c01.Scn{Kind: "caps-session", Mask: mask, Alt: alt, Cols: 8, Rows: 3, Frames: []c01.Frame{f1, f2, f3}}
+}
+
+// WidgetSession: the library's own text widgets hold clusters whose width depends on the measuring method (ZWJ
+// sequence, VS16 emoji, flag), each followed by a sentinel; row 0 holds plain cells. Frame 2 changes the sentinels
+// only (so that a repaint goes to the column the library believes they are in), frame 3 repaints everything.
+// Every text, measured by whatever method, is far narrower than the screen: no wrapping, truncation or scrolling.
+// variant%3: 0 = pagers and text input, 1 = pagers only, 2 = text input only.
+func WidgetSession(mask int, alt bool, variant int) *Scn {
+	tricky := []string{"👩‍🚀", "☺️", "🇯🇵"}
+	plain := []string{"a", "世", "é", "x"}
+	t := func(k int) string { return tricky[(variant+k)%3] }
+	p := func(k int) string { return plain[(variant+k)%4] }
+	bg := c01.StyleD{Bg: uint32(vaxis.IndexColor(uint8(1 + variant%6)))}
+	none := c01.StyleD{}
+	texts := func(s1, s2 string) []c01.Op {
+		ops := []c01.Op{
+			{K: "set", C: 0, R: 0, Cell: &c01.CellD{G: "r", W: 1}},
+			{K: "set", C: 1, R: 0, Cell: &c01.CellD{G: t(0), W: 0}},
+		}
+		if variant%3 != 2 {
+			ops = append(ops, c01.Op{K: "pager", R: 1, Text: t(0) + s1 + p(0), Style: &bg},
+				c01.Op{K: "pager", R: 2, Text: p(1) + t(1) + s1 + t(2) + s2, Style: &none})
+		}
+		if variant%3 != 1 {
+			ops = append(ops, c01.Op{K: "input", R: 3, Text: t(2) + s1 + p(2) + t(0) + s2,
+				Cell: &c01.CellD{G: []string{"", "> ", t(1) + " "}[variant/3%3]}, Shape: 1})
+		}
+		return ops
+	}
+	// (the last row stays empty: text a wrongly measuring library pushes over the end of a row wraps, not scrolls)
+	return Plain(&c01.Scn{Kind: "caps-widget", Mask: mask, Alt: alt, Cols: 20, Rows: 5, Frames: []c01.Frame{
+		{End: "render", Ops: texts("|", "!")}, {End: "render", Ops: texts("#", "?")}, {End: "refresh"}}})
+}
+
+// AppIDSession: Session on a terminal that reports the given application id (any string it was started with).
+func AppIDSession(mask int, alt bool, variant int, id string) *Scn {
+	sc := Plain(Session(mask, alt, variant))
+	sc.Kind, sc.AppID = "caps-appid", id
+	return sc
 }
 
 // TermSession: a session on a terminal that names itself (XTVERSION) and gives a DA1 service class; the
